@@ -59,6 +59,11 @@ func schedWorlds(quick bool) []schedWorld {
 		{NSs: nss, WLs: wls[:3], NPs: []wm.NP{np1, np3}, ANPs: anps, BANP: banp},
 		{NSs: nss, WLs: wls[:3], NPs: []wm.NP{np2}, Svcs: svcs, Ings: ings, Routes: routes},
 	}
+	// one pod selected in one direction by two policies: allow-all from the widest ipBlock, and the entire cluster on a port
+	npAllIP := wm.NP{NS: "ns1", Name: "all-from-ip", PodSel: *wm.ML("app", "a"), Types: []string{"Ingress", "Egress"}, Ingress: []wm.NPRule{{Peers: []wm.NPPeer{{CIDR: "0.0.0.0/0"}}}}, Egress: []wm.NPRule{{Peers: []wm.NPPeer{{CIDR: "10.0.0.0/8"}}}}}
+	npCluster := wm.NP{NS: "ns1", Name: "cluster-8080", PodSel: wm.Sel{}, Types: []string{"Ingress", "Egress"}, Ingress: []wm.NPRule{{Peers: []wm.NPPeer{{NSSel: all}}, Ports: []wm.NPPort{{HasPort: true, Num: 8080}}}}, Egress: []wm.NPRule{{Peers: []wm.NPPeer{{NSSel: all}}, Ports: []wm.NPPort{{HasPort: true, Num: 53, Proto: "UDP"}}}}}
+	npThird := wm.NP{NS: "ns1", Name: "labels", PodSel: *wm.ML("app", "a"), Types: []string{"Ingress"}, Ingress: []wm.NPRule{{Peers: []wm.NPPeer{{NSSel: all, Pod: wm.ML("role", "mon")}}, Ports: []wm.NPPort{{HasPort: true, Num: 9090}}}}}
+	ws = append(ws, &wm.World{NSs: nss[:1], WLs: wls[:2], NPs: []wm.NP{npAllIP, npCluster, npThird}})
 	// exposure-rich worlds from the exposure alphabet
 	rules := expo.Rules()
 	for _, rs := range [][4]int{{3, 40, 61, 90}, {25, 7, 100, 12}, {117, 50, 33, 71}} {
@@ -318,7 +323,7 @@ func realSchedules(r *fw.Run) {
 	}
 	// bound 2 on the small worlds: a second deviation at one of the next 40 range executions
 	fw.ExploreIsolated(r, "schedules/bound-2", fw.Full, 120*time.Second, func(c *fw.Ctx) schedCase {
-		wi := 3 + c.Choose(3, "world (exposure worlds)")
+		wi := 3 + c.Choose(4, "world (two-policies world and exposure worlds)")
 		p := c.Choose(len(ar[wi].pts), "first deviating range execution")
 		alt := c.Choose(minInt(numAlts(ar[wi].pts[p].N), 2), "order")
 		q := c.Choose(40, "second deviation: offset after the first")
